@@ -1015,6 +1015,14 @@ func (rl *Shell) shellKillWord() {
 
 	_, epos := rl.selection.Pos()
 
+	// No shell word at or after point (end of the buffer, negative argument).
+	if epos < startPos {
+		rl.selection.Reset()
+		rl.cursor.Set(startPos)
+
+		return
+	}
+
 	rl.Buffers.Write([]rune((*rl.line)[startPos:epos])...)
 	rl.line.Cut(startPos, epos)
 	rl.cursor.Set(startPos)
